@@ -3,7 +3,7 @@ import random
 from pipefam import *
 
 GEN = 'C14'
-MODEL_FN = 'Model/Cfg.v:compile/resolve, Model/Packet.v:get_bytes/map_custom/apply_layer_maps, Model/ProdNF.v:nf_lookup, Model/Format.v:compile_fmt/format_json/format_text (field list, renames, renderers, custom fields in the text forms)'
+MODEL_FN = 'Model/Cfg.v:compile/resolve, Model/Packet.v:get_bytes/map_custom/apply_layer_maps, Model/ProdNF.v:nf_lookup, Model/Format.v:compile_fmt/format_json/format_text/msg_key (field list, renames, renderers, custom fields in the text forms; partition key)'
 RULE = ('configs: generated mapping files (1..6 custom protobuf fields varint/string scalar/array with indices 1000..5000; 0..6 '
         'NetFlow v9 / IPFIX mappings with/without PEN and endianness; 0..6 layer mappings over the layer names and aliases of '
         'docs/mapping.md with bit offsets 0..256, bit lengths 1..128, encap on/off; destinations = custom fields or existing '
@@ -11,7 +11,8 @@ RULE = ('configs: generated mapping files (1..6 custom protobuf fields varint/st
         'loaded by yaml.Unmarshal + ProducerConfig.Compile as cmd/goflow2 does, and run over mixed histories (v5, v9, IPFIX, '
         'sFlow with raw headers that are captures of model frames) through the auto pipe: every message column and custom '
         'field == model under the compiled abstract configuration, and the JSON and text BYTES of every message == Model/Format.v under the '
-        'same formatter section (fields, renames, renderers on custom fields and columns); key oracle on the implementation; GetBytes: '
+        'same formatter section (fields, renames, renderers on custom fields and columns), and the partition key bytes == Model/Format.v msg_key '
+        '(FNV-1 32 over the %v text of the key fields: columns of every kind, custom fields); GetBytes: '
         'all 1-byte buffers exhaustively, 2- and 3-byte buffers over a bit basis plus random ones, x offsets 0..24 x lengths 0..24 x shift; doc examples: every ```yaml mapping file shown in docs/mapping.md and '
         'cmd/goflow2/mapping.yaml (re-read from the repository on every run, translated to the abstract configuration by yaml_to_toks) '
         'must load and behave like the model compiled from its own content. '
@@ -20,7 +21,6 @@ TRUSTED = ['Coq 8.16.1 kernel (coqc), vm_compute in the finite GetBytes theorem'
            'Go harness harness/cfg.go, fmt.go; bin/engine.py; the Python YAML printer of this module',
            'modelled, not verified: producer/proto/config_impl.go, reflect.go, producer_packet.go (layer mapping hook)']
 ASSUMPTIONS = ['the abstract configuration printed as tokens and the YAML text describe the same file (both printed from one Python structure)',
-               'the partition key (FNV hash of the key fields) is judged on the implementation: same key fields, same key',
                'outside the formatter model: timestamps beyond year 9999 under the datetime renderers (not compared)']
 COLS = [('bytes', 'Bytes'), ('packets', 'Packets'), ('src_addr', 'SrcAddr'), ('dst_addr', 'DstAddr'), ('etype', 'Etype'),
         ('proto', 'Proto'), ('src_port', 'SrcPort'), ('dst_port', 'DstPort'), ('in_if', 'InIf'), ('out_if', 'OutIf'),
@@ -59,7 +59,8 @@ def gen_cfg(rng):
     fields = rng.sample(ALLFIELDS, rng.randrange(3, len(ALLFIELDS))) + [c['name'] for c in customs]
     rng.shuffle(fields)
     y += ['  fields:'] + ['    - %s' % f for f in fields]
-    keys = rng.sample([c[0] for c in COLS[:12]], rng.randrange(0, 3))
+    keys = rng.sample([c[0] for c in COLS[:12]], rng.randrange(0, 3)) if rng.random() < 0.5 else \
+        rng.sample(ALLFIELDS + [c['name'] for c in customs], rng.randrange(0, 4))
     if keys:
         y += ['  key:'] + ['    - %s' % k for k in keys]
     ren = rng.sample(fields, min(len(fields), rng.randrange(0, 3)))
@@ -71,7 +72,7 @@ def gen_cfg(rng):
     rmap = {f: rng.choice(['none', 'ip', 'mac', 'etype', 'proto', 'datetime', 'datetimenano', 'string']) for f in rr}
     if rr:
         y += ['  render:'] + ['    %s: %s' % (f, rmap[f]) for f in rr]
-    ftoks = fmt_tokens(fields, {f: 'r_' + f for f in ren}, rmap)
+    ftoks = fmt_tokens(fields, {f: 'r_' + f for f in ren}, rmap, keys)
     y += ['  protobuf:']
     for c in customs:
         y += ['    - name: %s' % c['name'], '      index: %d' % c['index'], '      type: %s' % c['type'],
@@ -131,7 +132,7 @@ def yaml_to_toks(doc):
     """abstract configuration tokens of a parsed mapping file (the same vocabulary gen_cfg prints)"""
     doc = doc or {}
     fm = doc.get('formatter') or {}
-    toks = fmt_tokens(fm.get('fields'), fm.get('rename'), fm.get('render')) + ['cfg']
+    toks = fmt_tokens(fm.get('fields'), fm.get('rename'), fm.get('render'), fm.get('key')) + ['cfg']
     for c in ((doc.get('formatter') or {}).get('protobuf') or []):
         toks += ['custom', str(c['name']), '#%x' % int(c['index']), '#%x' % (0 if str(c.get('type', '')) == 'varint' else 1),
                  '#%x' % int(bool(c.get('array', False)))]
